@@ -5,11 +5,16 @@ use crate::explore::{explore, record, Caps};
 use crate::hist::{HistCfg, HistSystem};
 
 pub mod c01;
+pub mod hist_props;
 pub mod replay;
 
 pub fn run(id: &str, tier: Tier) -> i32 {
     match id {
         "C01" => c01::run(tier),
+        "C02" => hist_props::c02(tier),
+        "C03" => hist_props::c03(tier),
+        "C04" => hist_props::c04(tier),
+        "C15" => hist_props::c15(tier),
         other => {
             println!("MACHINERY-ERROR unknown property {other}");
             2
@@ -35,4 +40,9 @@ pub fn run_hist_runs(report: &mut Report, property: &str, runs: &[(HistCfg, Caps
         record(report, &cfg.label, &o);
     }
     report.cov("bounds", serde_json::Value::from(descr));
+}
+
+/// Replay of artefacts produced by engines other than the history explorer.
+pub fn replay_other(engine: &str, _v: &serde_json::Value) -> Vec<String> {
+    vec![format!("MACHINERY-ERROR no replayer for engine {engine:?}")]
 }
